@@ -78,6 +78,12 @@ CHECKS = {
         "Trusted: the tree builder (expected flattening known by construction); byte-wise path order. One genuine defect found and fixed (FakeFileSystem did not resolve `..`).",
         "4/C11",
     ),
+    "C14": (
+        "runtime monitor: file trees with exactly one invalid entry at a known (file, first line, last line, stop line) after arbitrary valid content; rendered error chain and CLI stderr parsed for file names and line numbers",
+        "4*10^4 (quick) / 2*10^6 (thorough) trees of 1-3 files (LF/CRLF per file, multi-byte comments and names, blank-line runs, includes one and two levels deep) with one of 15 invalid entries (7 semantic, 8 syntactic): the run must fail, every file named as the location must be the file holding the entry, at least one line number must be shown and all shown line numbers must lie inside the entry (up to the stop line for syntax errors); 1% repeated on real files through `okane balance/register/accounts`.",
+        "Trusted: the generator's own line bookkeeping; the diagnostic layout (`--> file:line:col`, `N |` gutters, `failed to parse file`).",
+        "4/C14",
+    ),
 }
 
 NOT_APPLICABLE = []
